@@ -15,7 +15,8 @@ EXPLANATION = (
     "a timer).  Decides that no expired/withdrawn record can feed an event; not which data over which history."
     " (f) Outside reset_ttl with a received record, expiry times only move forward: every set_expire call sits under `get_expire() > new` (set_expire_sooner otherwise). (g) In add_or_update no path stores or refreshes a record with the cache-flush bit without running the flush of its stale siblings."
     " (h) Every comparison in a record's matches() pairs a field with the same field of the other record."
-    " (i) Every answer of a response on a known interface is handed to DnsCache::add_or_update, whatever is_for_us says (TTL refresh, goodbye and cache-flush of names already cached).")
+    " (i) Every answer of a response on a known interface is handed to DnsCache::add_or_update, whatever is_for_us says (TTL refresh, goodbye and cache-flush of names already cached)."
+    " (j) The not-for-us return of add_or_update sits behind a look at the records already cached for the name.")
 UNDECIDED = ["that what is in the cache is what was received in which order ('last advertised' over histories)",
              "interface tagging across multi-interface merges (value-level)"]
 
@@ -263,6 +264,8 @@ def run(ctx, P):
     r2.cache_update_rules(ctx, P, "C03g", want=("flush",))
     r2.compares_like_with_like(ctx, P, "C03h", fnames=("matches",))
     r2.every_answer_reaches_the_cache(ctx, P, "C03i")
+    from . import r4
+    r4.cached_names_updated_whatever_is_for_us(ctx, P, "C03j")
     clause_live_predicates(ctx, P)
     clause_ab(ctx, P)
     clause_c(ctx, P)
